@@ -164,9 +164,11 @@ namespace embedded_pairing::wkdibe {
         int j = 0; /* Index for writing to qualified.b */
         int k = 0; /* Index for reading from attrs.attrs */
         for (int i = 0; i != params.l; i++) {
-            if (k != attrs.length && !attrs.attrs[k].omitFromKeys && attrs.attrs[k].idx == i) {
-                temp.multiply(params.h[i], attrs.attrs[k].id);
-                sk.a0.add(sk.a0, temp);
+            if (k != attrs.length && attrs.attrs[k].idx == i) {
+                if (!attrs.attrs[k].omitFromKeys) {
+                    temp.multiply(params.h[i], attrs.attrs[k].id);
+                    sk.a0.add(sk.a0, temp);
+                }
                 k++;
             } else if (!attrs.omitAllFromKeysUnlessPresent) {
                 sk.b[j].idx = i;
